@@ -23,20 +23,20 @@ def showB (b : Bool) : String := if b then "acc" else "rej"
 def bit (c : Char) : Option Bool :=
   if c = '1' then some true else if c = '0' then some false else none
 
-/-- `posix elseInCmd rsrvAfterIO bangAlone forAssign fnBody(0|1|2) forBrace` as seven characters. -/
+/-- `posix elseInCmd rsrvAfterIO bangAlone forAssign fnBody(0|1|2) forBrace` `closerAfterRedir` as eight characters. -/
 def cfgOf (s : String) : Option Cfg :=
   match s.toList with
-  | [a, b, c, d, e, f, g] => do
+  | [a, b, c, d, e, f, g, h] => do
     let fb ← (if f = '0' then some FnBody.andOr else if f = '1' then some FnBody.command
               else if f = '2' then some FnBody.compound else none)
     pure { posix := ← bit a, elseInCmd := ← bit b, rsrvAfterIO := ← bit c, bangAlone := ← bit d,
-           forAssign := ← bit e, fnBody := fb, forBrace := ← bit g }
+           forAssign := ← bit e, fnBody := fb, forBrace := ← bit g, closerAfterRedir := ← bit h }
   | _ => none
 
 /-- ops: `acc <b|p> <tok>*` — model of the Go parser;
          `specsh <b|p> <tok>*` — recogniser of the shells' grammar (the specification, run against
            `bash -n` / `dash -n`);
-         `cfg <7 chars> <tok>*` — the parser with arbitrary rule variants (ties the harness's own
+         `cfg <8 chars> <tok>*` — the parser with arbitrary rule variants (ties the harness's own
            transliteration). -/
 def handle (args : List String) : String :=
   match args with
